@@ -71,6 +71,14 @@ Theorem C13_settle_loop_is_the_source_async : forall eng pr m s,
 Proof. exact settle_async_bridge. Qed.
 Print Assumptions C13_settle_loop_is_the_source_async.
 
+(* ... and the drain loop of the sync engine (_process_event_queue): shape checked on every run (re-entrancy guard; while the
+   queue is not empty: count, cut when the count exceeds maxIterations - the queue is cleared -, pop, on_event_received hooks,
+   process the event, settle), cut test re-translated; that loop is the model's `drain` *)
+Theorem C13_drain_loop_is_the_source : forall eng m s,
+  drain_src GenGeom.drain_cut_sync (S (m_max_iter m)) 0 (m_max_iter m) eng m s = drain (m_max_iter m) eng m s.
+Proof. exact drain_sync_bridge. Qed.
+Print Assumptions C13_drain_loop_is_the_source.
+
 Example C13_sync_storm_is_cut :
   let s0 := fst (sync_start storm (st_init [])) in
   s_queue (fst (sync_send storm (Build_event "GO" EPlain 1) s0)) = [] /\
